@@ -112,6 +112,28 @@ func c19Lockstep(r *rt.Rec, rng *rand.Rand, n, steps int) {
 		for step := 0; step < steps; step++ {
 			hi := rng.Intn(len(handles))
 			wg := handles[hi]
+			if rng.Intn(12) == 0 {
+				// store-level operations that must be without effect on what the
+				// handles serve: creating the existing graph (must fail), getting a
+				// missing one, and acquiring a further handle mid-history
+				switch rng.Intn(3) {
+				case 0:
+					hist = append(hist, "store.NewGraph(existing)")
+					if _, err := wrapped.NewGraph(ctx, "?g"); err == nil {
+						r.Violation("create-existing-succeeds/memoized", "NewGraph of an existing graph succeeded through the memoizer", hist)
+					}
+				case 1:
+					hist = append(hist, "store.Graph(missing)")
+					if _, err := wrapped.Graph(ctx, "?nosuch"); err == nil {
+						r.Violation("get-missing-succeeds/memoized", "Graph of a missing graph succeeded through the memoizer", hist)
+					}
+				default:
+					if hk, err := wrapped.Graph(ctx, "?g"); err == nil && len(handles) < 5 {
+						hist = append(hist, fmt.Sprintf("h%d := store.Graph()", len(handles)))
+						handles = append(handles, hk)
+					}
+				}
+			}
 			switch x := rng.Intn(10); {
 			case x < 2:
 				var b []int
@@ -511,8 +533,16 @@ func c19Stress(r *rt.Rec, rng *rand.Rand, n int) {
 			h.clients = h.clients[:8]
 		}
 		ctx := context.Background()
-		wrapped := memoization.New(memory.NewStore())
-		g, _ := wrapped.NewGraph(ctx, "?g")
+		inner := memory.NewStore()
+		wrapped := memoization.New(inner)
+		var g0 storage.Graph
+		if i%2 == 1 {
+			// the graph is created behind the wrapper's back: no handle of it has
+			// been handed out when the clients start
+			inner.NewGraph(ctx, "?g")
+		} else {
+			g0, _ = wrapped.NewGraph(ctx, "?g")
+		}
 		rec := lin.NewRecorder()
 		var wg sync.WaitGroup
 		start := make(chan struct{})
@@ -523,6 +553,15 @@ func c19Stress(r *rt.Rec, rng *rand.Rand, n int) {
 				cl := rec.Client(ci)
 				defer cl.Flush()
 				<-start
+				// every other client works through a handle of its own, obtained
+				// while the others are obtaining theirs (the graph exists, but the
+				// wrapper may not have handed out a handle for it yet)
+				g := g0
+				if ci%2 == 1 || i%2 == 1 {
+					if hg, err := wrapped.Graph(ctx, "?g"); err == nil {
+						g = hg
+					}
+				}
 				for _, op := range ops {
 					op := op
 					switch op.kind {
@@ -783,18 +822,106 @@ func c19KeyConfusion(r *rt.Rec, rng *rand.Rand, rounds int) {
 	}
 }
 
+
+// barrierStore makes the first n Graph() calls return together: the callers
+// then enter the wrapper's bookkeeping at the same moment. It only shapes the
+// interleaving; no verdict depends on it (a lone caller is released after a
+// short wait).
+type barrierStore struct {
+	storage.Store
+	mu      sync.Mutex
+	n, seen int
+	release chan struct{}
+}
+
+func newBarrierStore(inner storage.Store, n int) *barrierStore {
+	return &barrierStore{Store: inner, n: n, release: make(chan struct{})}
+}
+
+func (b *barrierStore) Graph(ctx context.Context, id string) (storage.Graph, error) {
+	g, err := b.Store.Graph(ctx, id)
+	b.mu.Lock()
+	b.seen++
+	if b.seen == b.n {
+		close(b.release)
+	}
+	wait := b.seen <= b.n
+	b.mu.Unlock()
+	if wait {
+		select {
+		case <-b.release:
+		case <-time.After(50 * time.Millisecond):
+		}
+	}
+	return g, err
+}
+
+// c19HandleRace: the graph exists in the wrapped store but the wrapper has not
+// handed out a handle yet; k goroutines obtain their first handle at the same
+// moment. Afterwards (sequentially, so the oracle is exact) a read through one
+// handle, a write through another and the same read again must reflect the
+// write, for every ordered pair of handles.
+func c19HandleRace(r *rt.Rec, rng *rand.Rand, rounds int) {
+	ctx := context.Background()
+	q := ref.Query{Method: "TriplesForSubject", S: gen.VNodes[0]}
+	for round := 0; round < rounds; round++ {
+		k := 2 + rng.Intn(3)
+		inner := memory.NewStore()
+		ig, _ := inner.NewGraph(ctx, "?g")
+		ig.AddTriples(ctx, []*triple.Triple{c19T(0)})
+		wrapped := memoization.New(newBarrierStore(inner, k))
+		handles := make([]storage.Graph, k)
+		var wg sync.WaitGroup
+		for i := 0; i < k; i++ {
+			wg.Add(1)
+			go func(i int) {
+				defer wg.Done()
+				handles[i], _ = wrapped.Graph(ctx, "?g")
+			}(i)
+		}
+		wg.Wait()
+		r.Note(fmt.Sprintf("handle race round %d with %d handles", round, k))
+		next := 1
+		for a := 0; a < k; a++ {
+			for b := 0; b < k; b++ {
+				if a == b || handles[a] == nil || handles[b] == nil {
+					continue
+				}
+				ref.Call(ctx, handles[a], q, storage.DefaultLookup) // memoize through a
+				t := c19T(next%3 + 1)
+				next++
+				add := rng.Intn(2) == 0
+				if add {
+					handles[b].AddTriples(ctx, []*triple.Triple{t})
+				} else {
+					handles[b].RemoveTriples(ctx, []*triple.Triple{t})
+				}
+				got, _, _ := ref.Call(ctx, handles[a], q, storage.DefaultLookup)
+				want, _, _ := ref.Call(ctx, ig, q, storage.DefaultLookup)
+				r.Eval(1)
+				if strings.Join(got, "\x1c") != strings.Join(want, "\x1c") {
+					r.Violation("stale-after-write/handles-obtained-concurrently", fmt.Sprintf("%d handles of one graph were obtained at the same moment; after a write through handle %d, handle %d still returns %d elements where the wrapped store holds %d", k, b, a, len(got), len(want)),
+						map[string]interface{}{"handles": k, "read_handle": a, "write_handle": b, "through_memoizer": showAll(got, 6), "wrapped_store": showAll(want, 6)})
+					break
+				}
+			}
+		}
+		r.Nontrivial(fmt.Sprintf("handle-race|%d|%d", round, k))
+	}
+}
+
 func init() {
 	register(&rt.Check{
 		ID:    "C19",
 		Level: "exploration",
-		Rule: "(a) lockstep histories: one random sequence of writes, the eleven reads and Exist with every kind of option value (window, filters, LatestAnchor, MaxElements x Offset, pairs differing only in Offset), repeated reads, through 1-3 handles obtained from the wrapper, applied to memoization.New(memory.NewStore()) and to a plain memory store; (b) hook-level interleavings: a writer (one add or remove) and one or two readers (same lookup, same or another handle) steered by a scheduler at the memoizer's verif yield points, every maximal schedule enumerated by re-execution (W+R complete, W+R+R sampled in quick / complete in thorough); (c) the same mix un-steered with 8 goroutines under -race, recorded and checked with the C07 porcupine model; (d) key confusion: with no write at all, every lookup method x arguments carrying the same identifiers in different roles (node as subject and as object, predicate as predicate and as reified object) x 24 option values differing in one field, each called three times in shuffled order through two handles and compared with the plain store; (e) a lookup that fails part way followed by the same lookup; " +
+		Rule: "(a) lockstep histories: one random sequence of writes, the eleven reads and Exist with every kind of option value (window, filters, LatestAnchor, MaxElements x Offset, pairs differing only in Offset), repeated reads, through 1-3 handles obtained from the wrapper, applied to memoization.New(memory.NewStore()) and to a plain memory store; (b) hook-level interleavings: a writer (one add or remove) and one or two readers (same lookup, same or another handle) steered by a scheduler at the memoizer's verif yield points, every maximal schedule enumerated by re-execution (W+R complete, W+R+R sampled in quick / complete in thorough); (c) the same mix un-steered with 8 goroutines under -race, recorded and checked with the C07 porcupine model; (d) key confusion: with no write at all, every lookup method x arguments carrying the same identifiers in different roles (node as subject and as object, predicate as predicate and as reified object) x 24 option values differing in one field, each called three times in shuffled order through two handles and compared with the plain store; (e) a lookup that fails part way followed by the same lookup; (f) handle race: 2-4 goroutines obtain their first handle of an existing graph at the same moment (the wrapped store releases their Graph() calls together), then read through one, write through another, read again, for every ordered pair; " +
 			"oracle: every read through the wrapper equals the plain store's answer at that moment; after quiescence a read through every handle equals the wrapped store; porcupine Illegal = violation; non-trivial: (a) a repeated read with a write in between and a pair of reads differing only in Offset, (b) a reader step while the writer sits between cache clear and forwarded write; distinct by history / schedule",
 		Assume: []string{"the yield hooks lie outside graphMemoizer.mu, so a granted participant never waits for a parked one", "W+R+R schedules are sampled in the quick tier"},
 		Floor:  30,
 		Phases: func(tier string, seed int64) []rt.Phase {
-			n, steps, wrr, st, kc := 208, 60, 400, 160, 1
+			n, steps, wrr, st, kc, hr := 208, 60, 400, 160, 1, 150
 			if tier == "thorough" {
-				n, steps, wrr, st, kc = 3008, 80, 0, 2000, 12
+				n, steps, wrr, st, kc, hr = 3008, 80, 0, 2000, 12, 3000
 			}
 			return []rt.Phase{
 				{Name: "lockstep", N: 16, Run: func(i int, r *rt.Rec) { c19Lockstep(r, gen.Rng(seed, "c19a", i), n/16, steps) }},
@@ -804,6 +931,7 @@ func init() {
 					c01Histories(r, gen.Rng(seed, "c19h", i), n/32+1, 40, func(s storage.Store) storage.Store { return memoization.New(s) })
 				}},
 				{Name: "key-confusion", N: 8, Run: func(i int, r *rt.Rec) { c19KeyConfusion(r, gen.Rng(seed, "c19k", i), kc) }},
+				{Name: "handle-race", N: 8, Procs: 16, Run: func(i int, r *rt.Rec) { c19HandleRace(r, gen.Rng(seed, "c19hr", i), hr) }},
 				{Name: "fault-then-read", N: 8, Run: func(i int, r *rt.Rec) { c19FaultThenRead(r, gen.Rng(seed, "c19f", i), n/16+4) }},
 				{Name: "interleavings", N: 8, Exhaustive: tier == "thorough", Run: func(i int, r *rt.Rec) { c19Interleavings(r, i, wrr, gen.Rng(seed, "c19b", i)) }},
 				{Name: "stress-race", N: 16, Race: true, Run: func(i int, r *rt.Rec) { c19Stress(r, gen.Rng(seed, "c19c", i), st/16) }},
